@@ -82,6 +82,33 @@ def _contains_bytes(v, depth=0):
     return False
 
 
+def almost_valid(k):
+    """name -> content of key files that are ALMOST a valid key k.  Only the SIZE decides: exactly 32 bytes is a key
+    and is used verbatim (whatever the bytes are), every other size is malformed"""
+    import base64
+    tails = {"lf": b"\n", "crlf": b"\r\n", "3lf": b"\n\n\n", "space": b" ", "nul": b"\x00", "tab": b"\t"}
+    out = {}
+    for n, t in tails.items():
+        out["key+" + n] = k + t
+    for n, t in tails.items():
+        out[n + "+key"] = t + k
+    out["whitespace+key+whitespace"] = b" \n" + k + b"\n "
+    out["crlf+key+crlf"] = b"\r\n" + k + b"\r\n"
+    out["valid32-ends-in-crlf"] = k[:30] + b"\r\n"
+    out["valid32-ends-in-lf"] = k[:31] + b"\n"
+    out["valid32-ends-in-spaces"] = k[:28] + b"    "
+    out["valid32-ends-in-nul"] = k[:31] + b"\x00"
+    out["valid32-starts-with-newline"] = b"\n" + k[:31]
+    out["valid32-all-spaces"] = b" " * 32
+    out["valid32-all-whitespace-mix"] = b" \t\r\n" * 8
+    out["valid32-all-nul"] = bytes(32)
+    out["key-twice-64"] = k + k
+    out["key+1-byte-33"] = k + b"\x5a"
+    out["hex-text-64"] = k.hex().encode()
+    out["base64-text-44"] = base64.b64encode(k)
+    return out
+
+
 def _forms(key):
     """the spellings of a key that count as key material"""
     import base64
@@ -165,6 +192,8 @@ class World:
         os.makedirs(self.dir, exist_ok=True)
         self.path = os.path.join(self.dir, "app.key")
         self.k1, self.k2 = k1, k2
+        self.extra = almost_valid(k1)
+        self.almost = None         # name of the almost-valid kind this history is about (witness keys, lean op set)
         self.opens = []            # (mode) of every open() of the key path made by the library in the current step
         self.reset("absent")
 
@@ -180,6 +209,8 @@ class World:
         self.set_disk(kind)
 
     def content_of(self, kind):
+        if kind in self.extra:
+            return self.extra[kind]
         return {"absent": None, "nodir": None, "valid": self.k1, "other": self.k2, "empty": b"",
                 "short31": self.k1[:31], "long33": self.k1 + b"\x07"}[kind]
 
@@ -255,7 +286,8 @@ class World:
     def ctx(self):
         o = "after-failed-open" if self.failed else ("reused-object" if self.used else "fresh-object")
         cls = {"absent": "absent", "nodir": "uncreatable", "valid": "valid", "other": "valid",
-               "created": "valid"}.get(self.kind, "malformed")
+               "created": "valid"}.get(self.kind, "valid" if self.disk is not None and len(self.disk) == 32
+                                       else "malformed")
         return "file=%s|depth=%s|%s" % (cls, min(self.depth, 2), o)
 
     # ---- one step ----------------------------------------------------------------------------------------
@@ -424,7 +456,10 @@ class World:
                     "no context open but the object holds key material in %s" % sorted(held))
             # "never retained" on the whole object graph: no key this object has loaded (nor the malformed content
             # it has refused) may be reachable from it once no context is open
-            for where, form in find_key_material(self.obj, [self.k1[:31], self.k2] + self.created):
+            material = [self.k1[:31], self.k2] + self.created
+            if self.almost:
+                material += [self.extra[self.almost]]
+            for where, form in find_key_material(self.obj, material):
                 fails.append((O_EXIT, "key-reachable-after-close:" + where,
                               "after %s (no context open) key material (%s) is reachable from the KeyFile at %s"
                               % (op, form, where)))
@@ -457,6 +492,8 @@ class World:
                     bad(obl, "key in use (recovered from XOR ciphertext) differs from the key of the session: "
                         "%s vs %s" % (_show(_xor(ct, PROBE)[:32]), _show(self.skey)), "|probe")
         self.opens = []
+        if self.almost:
+            fails = [(o, "almost-valid-key-file:" + self.almost, "%s {%s}" % (t, k)) for o, k, t in fails]
         return fails
 
 
@@ -465,6 +502,16 @@ def _show(b):
 
 
 def _allowed(world, prev, first, last=False):
+    if world.almost:
+        # histories about one almost-valid kind K: the file alternates between K and a valid key ("repair"); enc/dec
+        # outside a context are left to the probe that follows every step
+        if world.depth > 0:
+            ops = ["enter", "exit", "exit-exc", "enc", "dec"]
+        else:
+            ops = ["enter", "new"]
+            if not first and not last and not (prev or "").startswith("ext:"):
+                ops.append("ext:valid" if world.kind == world.almost else "ext:" + world.almost)
+        return [o for o in ops if not (o == prev and o in ("enc", "dec", "new"))]
     if world.depth > 0:
         ops = ["enter", "exit", "exit-exc", "enc", "dec"]
     else:
@@ -491,11 +538,12 @@ class _Patched:
         return False
 
 
-def run_sequence(tmp, init, ops, k1, k2):
+def run_sequence(tmp, init, ops, k1, k2, almost=None):
     """fresh linear execution; returns [(step_index, obligation, witness_key, what)]"""
     w = World(tmp, k1, k2)
     out = []
     with _Patched(w):
+        w.almost = almost
         w.reset(init)
         for i, op in enumerate(ops):
             if op in ("exit", "exit-exc") and w.depth == 0:
@@ -518,11 +566,15 @@ def rac(tier: str, seed: int) -> dict:
                    "dir [injected EACCES on write-open, process is root]) x sequences of length <= %d; 3 methods; "
                    "clauses evaluated after every step, plus XOR probe of the key in use; whenever no context is open "
                    "the object graph of the KeyFile (depth <= 6) is searched for every key it has loaded (raw / hex / "
-                   "base64 / int sequence)" % maxlen,
+                   "base64 / int sequence); plus %d ALMOST-VALID key-file kinds (key + / preceded by / wrapped in LF, CRLF, "
+                   "3 LF, space, NUL, tab; 32-byte files ending in or made of whitespace / NUL [valid: used verbatim]; "
+                   "key twice; key + 1 byte; hex and base64 text of a key), each with all sequences of length <= %d over "
+                   "{enter, exit, exit by exception, enc, dec, new, repair to a valid key / back} from the kind and from "
+                   "a valid key" % (maxlen, len(almost_valid(bytes(32))), maxlen),
                    tier=tier, seed=seed)
     k1 = bytes(rec.rng.getrandbits(8) for _ in range(32))
     k2 = bytes(rec.rng.getrandbits(8) for _ in range(32))
-    found = {}          # (obligation, wkey) -> (init, ops, what)
+    found = {}          # (obligation, wkey) -> (init, ops, what, almost kind or None)
     complete = True
 
     with sandbox() as tmp:
@@ -540,13 +592,13 @@ def rac(tier: str, seed: int) -> dict:
                     st = w.save()
                     fs = w.step(op)
                     seq = ops + (op,)
-                    rec.case(key=(init, seq), nontrivial=any(o in ("enter", "exit", "exit-exc", "enc", "dec") for o in seq),
+                    rec.case(key=(w.almost, init, seq), nontrivial=any(o in ("enter", "exit", "exit-exc", "enc", "dec") for o in seq),
                              sample={"init": init, "ops": list(seq)} if len(seq) == maxlen and
                              seq.count("enter") >= 2 and rec.evaluations % 997 == 0 else None)
                     for obl, wk, what in fs:
                         old = found.get((obl, wk))
                         if old is None or len(old[1]) > len(seq):
-                            found[(obl, wk)] = (init, seq, what)
+                            found[(obl, wk)] = (init, seq, what, w.almost)
                     # a failed clause normally means model and object have diverged: stop this branch; failures
                     # that only concern what a closed object holds / refuses leave the model valid: go on, so
                     # that e.g. the SECOND open of a malformed file is still required to raise
@@ -557,11 +609,18 @@ def rac(tier: str, seed: int) -> dict:
             for init in KINDS:
                 w.reset(init)
                 walk(init, ())
+            # ---- key files that are almost valid: one family of histories per kind (start malformed / start valid)
+            for kind in w.extra:
+                w.almost = kind
+                for init in (kind, "valid"):
+                    w.reset(init)
+                    walk(init, ())
+            w.almost = None
 
     # every candidate is re-executed from scratch (fresh sandbox, object, file) before it is reported
-    for (obl, wk), (init, seq, what) in sorted(found.items()):
+    for (obl, wk), (init, seq, what, almost) in sorted(found.items()):
         case = {"init": init, "ops": list(seq), "k1": k1.hex(), "k2": k2.hex(), "obligation": obl,
-                "witness_key": wk}
+                "witness_key": wk, "almost": almost}
         r = replay(case)
         if r["fails"]:
             rec.violation(obligation=obl, what="%s  [init=%s ops=%s]" % (what, init, ",".join(seq)),
@@ -572,7 +631,7 @@ def rac(tier: str, seed: int) -> dict:
 def replay(case: dict) -> dict:
     k1, k2 = bytes.fromhex(case["k1"]), bytes.fromhex(case["k2"])
     with sandbox() as tmp:
-        fs = run_sequence(tmp, case["init"], case["ops"], k1, k2)
+        fs = run_sequence(tmp, case["init"], case["ops"], k1, k2, case.get("almost"))
     want = (case.get("obligation"), case.get("witness_key"))
     hit = [f for f in fs if want[0] is None or (f[1], f[2]) == want]
     return {"fails": bool(hit),
